@@ -435,9 +435,6 @@ func (s *Server) processFilteringBeforeRequest(dctx *dnsContext) (rc resultCode)
 		return resultCodeSuccess
 	}
 
-	s.serverLock.RLock()
-	defer s.serverLock.RUnlock()
-
 	var err error
 	if dctx.result, err = s.filterDNSRequest(dctx); err != nil {
 		dctx.err = err
